@@ -129,7 +129,15 @@ def lift(repo_root, spec):
     path = repo_root + '/' + spec['file']
     with open(path, encoding='utf-8') as f:
         text = f.read()
-    start, end, body = find_block(text, spec['anchor'], spec.get('occurrence', 0))
+    if spec.get('mode') == 'regex':
+        # a single statement: the whole match of the anchor is the lifted text
+        ms = list(re.finditer(spec['anchor'], text, re.S))
+        if len(ms) <= spec.get('occurrence', 0):
+            raise LiftError("no statement matching %r in %s" % (spec['anchor'], spec['file']))
+        m = ms[spec.get('occurrence', 0)]
+        start, end, body = m.start(), m.end(), m.group(0)
+    else:
+        start, end, body = find_block(text, spec['anchor'], spec.get('occurrence', 0))
     if spec.get('mode') == 'stmt':
         # whole statement: from the start of the anchor match to the closing brace
         m = list(re.finditer(spec['anchor'], text, re.S))[spec.get('occurrence', 0)]
